@@ -732,6 +732,35 @@ def r5(k: Kit) -> None:
               'a malformed request body gets FX_BAD_MESSAGE',
               'a malformed request body is not answered with a status '
               '(the decode error ends the session)', fi.loc(fi.node))
+    # every read of the request packet happens under that handler
+    covered = set()
+    for t in walk_shallow(fi.node):
+        if isinstance(t, ast.Try) and any(
+                h.type is not None and 'PacketDecodeError' in unparse(h.type)
+                and 'FX_BAD_MESSAGE' in unparse(h) for h in t.handlers):
+            for st in t.body:
+                covered |= {id(x) for x in ast.walk(st)}
+    reads = 0
+    for c in ast.walk(fi.node):
+        if not isinstance(c, ast.Call):
+            continue
+        on_pkt = isinstance(c.func, ast.Attribute) and \
+            dotted(c.func.value) == 'packet'
+        passes = any(isinstance(a, ast.Name) and a.id == 'packet'
+                     for a in c.args)
+        if not (on_pkt or passes):
+            continue
+        reads += 1
+        rep.check(id(c) in covered, 'C14.R5',
+                  key(fi, f'`{norm(c)[:40]}` under the decode handler'),
+                  'request packet read inside the try that answers '
+                  'PacketDecodeError with FX_BAD_MESSAGE',
+                  f'`{norm(c)[:60]}` reads the request packet outside the '
+                  'try that converts PacketDecodeError into an FX_BAD_MESSAGE '
+                  'status: a truncated request ends the whole SFTP session '
+                  'and fails every outstanding request',
+                  fi.loc(c))
+    rep.floor('C14.R5', 'request packet reads in _process_packet', reads, 2)
     g = k.cfg(fi)
     un = [n for n in g.nodes if n.kind == 'raise_stmt' and
           'SFTPOpUnsupported' in unparse(n.ast)]
@@ -746,6 +775,59 @@ def r5(k: Kit) -> None:
               'FX_OP_UNSUPPORTED', fi.loc(fi.node))
 
 
+def r6(k: Kit) -> None:
+    """Status codes sent on a session are ones its version defines."""
+    from ..absint import evaluate, NotEvaluable, Obj
+    rep = k.rep
+    idx = k.idx
+    rep.rule('C14.R6', 'SFTPError.encode evaluated for every status code '
+             '1..FX_V6_END+1 and every version 3..6: the code put on the '
+             'wire is one the negotiated version defines (later codes are '
+             'downgraded to FX_FAILURE / FX_NO_SUCH_FILE), and a code the '
+             'version does define is sent unchanged')
+    fi = k.func('sftp.SFTPError.encode')
+    C = lambda n: idx.const('sftp', n)
+    ends = {3: C('FX_V3_END'), 4: C('FX_V4_END'), 5: C('FX_V5_END'),
+            6: C('FX_V6_END')}
+    if any(not isinstance(v, int) for v in ends.values()):
+        rep.error('C14.R6', 'constants', 'FX_V?_END constants not foldable')
+        return
+    frag = [st for st in fi.node.body if not isinstance(st, ast.Return)]
+    frag = [st for st in frag if not (isinstance(st, ast.Expr) and
+                                      isinstance(st.value, ast.Constant))]
+    bad = None
+    n = 0
+    for version in (3, 4, 5, 6):
+        for code in range(1, ends[6] + 2):
+            n += 1
+            try:
+                o = evaluate(idx, fi.module, frag, {'self.code': code},
+                             {'version': version},
+                             lambda nm, a, e: Obj('x'))
+            except NotEvaluable as exc:
+                rep.error('C14.R6', 'not-evaluable', str(exc))
+                return
+            sent = o.env.get('code')
+            if not isinstance(sent, int):
+                bad = bad or f'code {code} v{version}: emitted code unknown'
+                continue
+            if code <= ends[6] and sent > ends[version]:
+                bad = bad or (f'status code {code} on a v{version} session '
+                              f'is sent as {sent}, which v{version} does '
+                              f'not define (last code {ends[version]})')
+            if code <= ends[version] and sent != code and not (
+                    code == C('FX_NOT_A_DIRECTORY') and
+                    sent == C('FX_NO_SUCH_FILE')):
+                bad = bad or (f'status code {code} is defined in '
+                              f'v{version} but is sent as {sent}')
+            if code > ends[6] and sent != code:
+                bad = bad or f'private code {code} rewritten to {sent}'
+    rep.count('eval.status_code_cases', n)
+    rep.check(bad is None, 'C14.R6', key(fi, 'version-appropriate code'),
+              f'{n} (code, version) pairs: only codes the version defines '
+              'are sent', f'{bad}', fi.loc(fi.node))
+
+
 def run(idx, rep, tier):
     k = Kit(idx, rep)
     rep.assumptions += NOT_DECIDED
@@ -754,3 +836,4 @@ def run(idx, rep, tier):
     r3(k)
     r4(k)
     r5(k)
+    r6(k)
